@@ -87,9 +87,9 @@ seed("C02_m1", "C02", "SU2M.get_euler_angle: alpha, gamma taken from products (l
 seed("C02_m2", "C02", "cal_angle_from_momentum_id_swap: random_z not forwarded to the exchanged copy", "identical_particles declared AND random_z: False AND a moving parent",
      "missed at first (no declared-identical configuration in the regular stream); caught after adding the identical-vector configuration: 10 failures", "check strengthened")
 seed("C06_m1", "C06", "cfit: background normalisation integral cached on the (lru_cached) model object", "cfit AND one ConfigLoader serving a second get_fcn(all_data) with another phase-space sample AND non-constant bg_value",
-     "see INDEX", "")
+     "missed at first (one sample per ConfigLoader); caught after adding the second-sample phase (same ConfigLoader, other events / weights / bg_value): 14 failures", "check strengthened")
 seed("C06_m2", "C06", "GaussianConstr.get_constrain_term skips non-trainable variables", "gauss_constr on a variable that is fixed when the NLL is evaluated (likelihood scan)",
-     "see INDEX", "")
+     "missed at first (constrained parameters always free); caught after adding the fixed-parameter phase (set_fix at mean +- k sigma, FCN and CombineFCN): 22 failures", "check strengthened")
 
 if __name__ == "__main__":
     lines = ["# Seeded changes (confirmed in a scratch worktree: demo passes clean, fails with the change, pinned tests unchanged)", "",
